@@ -12,6 +12,7 @@ from __future__ import annotations
 
 import ast
 
+from pv.q import text as qtext
 from pv.model import AnalysisError, walk_no_nested, params, UNKNOWN
 from pv.q import has_stmt, has_if, find_if, returns, body_texts
 
@@ -94,19 +95,19 @@ def rule_c(model, rep):
     rep.check(body == ["record = self._identify_record(hash, None)", "if record.is_disabled:\n    return record.enable(hash)", "return hash"], R, site(CTX, "CryptContext.enable"),
               " | ".join(body), "enable(): disabled -> handler.enable(hash); an enabled hash is returned unchanged")
     fn = model.func(CTX, "CryptContext.disable")
-    t = ast.unparse(fn)
+    t = qtext(fn)
     rep.check("record = self._config.disabled_record" in t and returns(fn) == ["record.disable(hash)"], R, site(CTX, "CryptContext.disable"), "; ".join(returns(fn)), "disable() delegates to the context's disabled hasher")
     fn = model.func(CTX, "CryptContext.is_enabled")
     rep.check(returns(fn) == ["not self._identify_record(hash, None).is_disabled"], R, site(CTX, "CryptContext.is_enabled"), "; ".join(returns(fn)), "is_enabled = not identified-as-disabled")
     fn = model.func(CTX, "_CryptConfig.disabled_record")
-    t = ast.unparse(fn)
-    rep.check("for record in self._get_record_list(None):" in t and "if record.is_disabled:" in t and "raise RuntimeError" in t, R, site(CTX, "_CryptConfig.disabled_record"),
+    t = qtext(fn)
+    rep.check(t.loose("for record in self._get_record_list(None):") and t.loose("if record.is_disabled:") and t.loose("raise RuntimeError"), R, site(CTX, "_CryptConfig.disabled_record"),
               "first is_disabled record", "the disabled hasher is the first configured scheme flagged is_disabled")
     # DisabledHash defaults
     fn = model.func("passlib.ifc", "DisabledHash.disable")
     rep.check(returns(fn) == ["cls.hash('')"], R, site("passlib.ifc", "DisabledHash.disable"), "; ".join(returns(fn)), "default disable() = marker only")
     fn = model.func("passlib.ifc", "DisabledHash.enable")
-    rep.check(any(isinstance(n, ast.Raise) and "ValueError" in ast.unparse(n) for n in walk_no_nested(fn)), R, site("passlib.ifc", "DisabledHash.enable"), "raise ValueError", "default enable() cannot restore: ValueError")
+    rep.check(any(isinstance(n, ast.Raise) and qtext(n).loose("ValueError") for n in walk_no_nested(fn)), R, site("passlib.ifc", "DisabledHash.enable"), "raise ValueError", "default enable() cannot restore: ValueError")
     # unix_disabled
     U = "unix_disabled"
     fn = model.func(M, U + ".disable")
@@ -122,7 +123,7 @@ def rule_c(model, rep):
               witness="disabling a '*'-disabled string under the '!' marker nests the markers: enable() then returns a string that is still disabled")
     rep.check(body[-1] == "return out", R, site(M, U + ".disable"), body[-1], "returns marker + original")
     fn = model.func(M, U + ".enable")
-    t = ast.unparse(fn)
+    t = qtext(fn)
     loop = [n for n in walk_no_nested(fn) if isinstance(n, ast.For)]
     ok = len(loop) == 1 and ast.unparse(loop[0].iter) == "cls._disable_prefixes"
     rep.check(ok, R, site(M, U + ".enable"), ast.unparse(loop[0].iter) if loop else "<none>", "enable() tries every marker prefix")
@@ -155,7 +156,7 @@ def rule_c(model, rep):
     rep.check(has_if(fn, "not cls.identify(marker)"), R, site(M, U + ".using"), "marker validated through identify()", "a custom marker must itself be recognised as disabled",
               witness="using(marker='x') produces 'disabled' strings that the context treats as unknown hashes")
     fn = model.func(M, U + ".hash")
-    t = ast.unparse(fn)
+    t = qtext(fn)
     rep.check("marker = cls.default_marker" in t and ast.unparse(fn.body[-1]) == "return to_native_str(marker, param='marker')", R, site(M, U + ".hash"), ast.unparse(fn.body[-1]), "hash() returns the configured marker")
     fn = model.func(M, U + ".identify")
     rep.check(ast.unparse(fn.body[-1]) == "return not hash or hash[0] in start", R, site(M, U + ".identify"), ast.unparse(fn.body[-1]), "identify(): empty or starting with a marker")
